@@ -14,6 +14,7 @@ import (
 	"strings"
 	"sync"
 	"sync/atomic"
+	"time"
 
 	kzstd "github.com/klauspost/compress/zstd"
 	"github.com/prometheus/client_golang/prometheus"
@@ -368,7 +369,7 @@ type scriptG struct {
 	gathers   int32
 	dones     int32
 	cur, peak int32
-	wipe      bool // done() resets the families, as a caching gatherer may
+	wipe      bool                // done() resets the families, as a caching gatherer may
 	real      prometheus.Gatherer // when set, Gather is answered by a real prometheus.Registry
 	// blocking mode (sched/stress)
 	block   bool
@@ -380,6 +381,7 @@ type scriptG struct {
 
 type blockedCall struct {
 	release chan struct{}
+	doneCh  chan struct{} // closed by done() of this gather (transactional gatherers only)
 	fail    bool
 }
 
@@ -394,6 +396,12 @@ func (g *scriptG) enter() {
 }
 
 func (g *scriptG) gatherCommon() ([]*dto.MetricFamily, error) {
+	fams, err, _ := g.gatherCall()
+	return fams, err
+}
+
+func (g *scriptG) gatherCall() ([]*dto.MetricFamily, error, *blockedCall) {
+	var mine *blockedCall
 	atomic.AddInt32(&g.gathers, 1)
 	g.enter()
 	defer atomic.AddInt32(&g.cur, -1)
@@ -404,6 +412,7 @@ func (g *scriptG) gatherCommon() ([]*dto.MetricFamily, error) {
 		g.pending = nil
 		g.mu.Unlock()
 		if call != nil {
+			mine = call
 			g.entered <- 1
 			<-call.release
 			if call.fail {
@@ -415,9 +424,10 @@ func (g *scriptG) gatherCommon() ([]*dto.MetricFamily, error) {
 		runtime.Gosched()
 	}
 	if g.real != nil {
-		return g.real.Gather()
+		fams, err := g.real.Gather()
+		return fams, err, mine
 	}
-	return g.fams, err
+	return g.fams, err, mine
 }
 
 // a collector that fails completely: a real Registry then returns an empty, non-nil slice and an error
@@ -435,9 +445,12 @@ func (p plainG) Gather() ([]*dto.MetricFamily, error) { return p.g.gatherCommon(
 type transG struct{ g *scriptG }
 
 func (t transG) Gather() ([]*dto.MetricFamily, func(), error) {
-	fams, err := t.g.gatherCommon()
+	fams, err, call := t.g.gatherCall()
 	return fams, func() {
 		atomic.AddInt32(&t.g.dones, 1)
+		if call != nil && call.doneCh != nil {
+			close(call.doneCh)
+		}
 		if t.g.wipe {
 			for _, mf := range fams {
 				mf.Reset()
@@ -465,7 +478,9 @@ type reqCase struct {
 	registry    int // 0 none, 1 fresh, 2 shared with an earlier handler (AlreadyRegistered path)
 	transact    bool
 	server      bool
-	emptyShape  int // nothing gathered: 0 nil slice, 1 empty non-nil slice, 2 a real Registry whose only collector fails
+	timeout     bool   // HandlerOpts.Timeout of an hour: the handler runs inside http.TimeoutHandler, which never fires
+	pair        string // directed option-interaction case, for the histogram
+	emptyShape  int    // nothing gathered: 0 nil slice, 1 empty non-nil slice, 2 a real Registry whose only collector fails
 }
 
 var realZstd = promhttp.VerifZstdWriter()
@@ -548,6 +563,9 @@ func runRequest(c *reqCase) reqResult {
 		EnableOpenMetrics:                   c.openMetrics,
 		EnableOpenMetricsTextCreatedSamples: c.created,
 		ErrorLog:                            log.New(io.Discard, "", 0),
+	}
+	if c.timeout {
+		opts.Timeout = time.Hour
 	}
 	for _, o := range c.offered {
 		opts.OfferedCompressions = append(opts.OfferedCompressions, promhttp.Compression(o))
@@ -846,6 +864,12 @@ func runRequest(c *reqCase) reqResult {
 	if c.prefill > 0 {
 		res.tags = append(res.tags, "inflight>0")
 	}
+	if c.timeout {
+		res.tags = append(res.tags, fmt.Sprintf("timeout-1h+policy:%d", c.policy))
+	}
+	if c.pair != "" {
+		res.tags = append(res.tags, "pair:"+c.pair)
+	}
 	return res
 }
 
@@ -977,6 +1001,31 @@ func genReqCase(r *emit.Rng, server bool) *reqCase {
 		}
 	}
 	c.emptyShape = r.Intn(3)
+	c.timeout = r.Chance(1, 4)
+	switch r.Intn(16) {
+	case 0, 1: // DisableCompression x OfferedCompressions: disabling wins whatever is offered and accepted
+		c.pair = "disable+offers"
+		c.disable = true
+		c.offered = [][]string{{"gzip"}, {"zstd", "gzip"}, {"identity", "gzip", "zstd"}, {"zstd"}}[r.Intn(4)]
+		c.ae = []string{[]string{"gzip", "zstd", "gzip, zstd", "*"}[r.Intn(4)]}
+	case 2, 3: // EnableOpenMetrics x compression: OpenMetrics body (with its EOF trailer) inside gzip/zstd
+		c.pair = "openmetrics+compression"
+		c.openMetrics = true
+		c.disable = false
+		c.hasAccept = true
+		c.accept = []string{"application/openmetrics-text;version=1.0.0", "application/openmetrics-text; version=0.0.1", "application/openmetrics-text;version=1.0.0,text/plain;version=0.0.4;q=0.5,*/*;q=0.1"}[r.Intn(3)]
+		c.ae = []string{[]string{"gzip", "zstd", "zstd, gzip;q=0.5", "gzip;q=0.9, zstd;q=0.1"}[r.Intn(4)]}
+		c.zstd = 1
+		if r.Bool() {
+			c.offered = nil
+		}
+	case 4: // ErrorHandling x Timeout: every policy inside the TimeoutHandler, failing gather
+		c.pair = "policy+timeout"
+		c.timeout = true
+		if c.gerr == nil {
+			c.gerr = errors.New("failed inside the timeout handler")
+		}
+	}
 	if r.Chance(1, 8) { // directed: a total failure in each shape, every policy, with and without compression
 		c.fams = nil
 		c.gerr = errors.New("everything failed")
@@ -990,7 +1039,9 @@ func genReqCase(r *emit.Rng, server bool) *reqCase {
 	if c.limit > 0 && !server && r.Chance(1, 3) {
 		c.prefill = r.Intn(c.limit + 1)
 	}
-	c.openMetrics = r.Chance(2, 3)
+	if om := r.Chance(2, 3); c.pair != "openmetrics+compression" {
+		c.openMetrics = om
+	}
 	c.created = r.Chance(1, 3)
 	c.registry = []int{0, 1, 1, 1, 2}[r.Intn(5)]
 	c.transact = r.Chance(4, 5)
@@ -1006,22 +1057,41 @@ type schedResult struct {
 	term string
 	tags []string
 	fail string
+	skip bool // a wall-clock race made the run inconclusive; the case is not emitted
 }
 
-func runSchedule(r *emit.Rng, limit, threads, steps int, withPanics bool) schedResult {
+// tmode: 0 no Timeout, 1 Timeout of an hour (never fires), 2 Timeout of 10ms that fires for every request that is
+// let in before its gather is released (the driver waits for the timeout answer; no other wall-clock dependence)
+func runSchedule(r *emit.Rng, limit, threads, steps int, withPanics bool, tmode int) schedResult {
 	setZstd(1)
 	g := &scriptG{fams: []*dto.MetricFamily{genFamily(r, 0)}, block: true, entered: make(chan int, 64)}
 	policy := promhttp.HTTPErrorOnError
 	if withPanics {
 		policy = promhttp.PanicOnError
 	}
-	h := promhttp.HandlerForTransactional(transG{g}, promhttp.HandlerOpts{MaxRequestsInFlight: limit, ErrorHandling: policy})
+	opts := promhttp.HandlerOpts{MaxRequestsInFlight: limit, ErrorHandling: policy}
+	switch tmode {
+	case 1:
+		opts.Timeout = time.Hour
+	case 2:
+		opts.Timeout = 10 * time.Millisecond
+	}
+	limitBody := fmt.Sprintf("Limit of concurrent requests reached (%d), try again later.\n", limit)
+	timeoutBody := fmt.Sprintf("Exceeded configured timeout of %v.\n", opts.Timeout)
+	h := promhttp.HandlerForTransactional(transG{g}, opts)
+	const (
+		rPanic = iota
+		rOK
+		rLimit
+		rTimeout
+		rOther
+	)
 	type thr struct {
 		call     *blockedCall
-		done     chan int // status, or -1 for a panic
+		done     chan int
 		running  bool
 		started  bool
-		finished bool
+		timedOut bool
 	}
 	ths := make([]*thr, threads)
 	for i := range ths {
@@ -1030,6 +1100,34 @@ func runSchedule(r *emit.Rng, limit, threads, steps int, withPanics bool) schedR
 	var evs, outs []string
 	n503 := 0
 	res := schedResult{}
+	base := runtime.NumGoroutine()
+	// goroutines the schedule legitimately keeps alive right now
+	expected := func() int {
+		n := base
+		for _, th := range ths {
+			switch {
+			case th.running && th.timedOut:
+				n++ // the wrapped handler function, still gathering
+			case th.running && tmode > 0:
+				n += 2
+			case th.running:
+				n++
+			}
+		}
+		return n
+	}
+	settle := func() {
+		for i := 0; i < 200000 && runtime.NumGoroutine() > expected(); i++ {
+			runtime.Gosched()
+			if i > 1000 {
+				time.Sleep(10 * time.Microsecond)
+			}
+		}
+		if runtime.NumGoroutine() > expected() {
+			res.skip = true
+		}
+	}
+	var timedOut func(t int, emitEvent bool)
 	start := func(t int) {
 		th := ths[t]
 		evs = append(evs, emit.C(0, emit.I(t)))
@@ -1038,7 +1136,7 @@ func runSchedule(r *emit.Rng, limit, threads, steps int, withPanics bool) schedR
 			return
 		}
 		th.started = true
-		th.call = &blockedCall{release: make(chan struct{})}
+		th.call = &blockedCall{release: make(chan struct{}), doneCh: make(chan struct{})}
 		th.done = make(chan int, 1)
 		g.mu.Lock()
 		g.pending = th.call
@@ -1047,10 +1145,19 @@ func runSchedule(r *emit.Rng, limit, threads, steps int, withPanics bool) schedR
 			rec := httptest.NewRecorder()
 			defer func() {
 				if recover() != nil {
-					th.done <- -1
+					th.done <- rPanic
 					return
 				}
-				th.done <- rec.Code
+				switch {
+				case rec.Code == 200:
+					th.done <- rOK
+				case rec.Code == 503 && rec.Body.String() == limitBody:
+					th.done <- rLimit
+				case rec.Code == 503 && tmode > 0 && rec.Body.String() == timeoutBody:
+					th.done <- rTimeout
+				default:
+					th.done <- rOther
+				}
 			}()
 			h.ServeHTTP(rec, httptest.NewRequest("GET", "/metrics", nil))
 		}()
@@ -1059,21 +1166,56 @@ func runSchedule(r *emit.Rng, limit, threads, steps int, withPanics bool) schedR
 			th.running = true
 			outs = append(outs, "1")
 		case code := <-th.done:
-			g.mu.Lock()
-			g.pending = nil
-			g.mu.Unlock()
-			th.finished = true
-			if code == 503 {
+			switch code {
+			case rLimit:
+				g.mu.Lock()
+				g.pending = nil
+				g.mu.Unlock()
 				n503++
 				outs = append(outs, "2")
-			} else {
-				res.fail = fmt.Sprintf("request finished with %d without gathering", code)
-				outs = append(outs, "0")
+			case rTimeout:
+				// the timeout fired before the gather was even entered (a stalled machine): wait for the gather
+				select {
+				case <-g.entered:
+					th.running = true
+					th.timedOut = true
+					outs = append(outs, "1")
+					evs = append(evs, emit.C(2, emit.I(t)))
+					outs = append(outs, "3")
+				case <-time.After(5 * time.Second):
+					res.skip = true
+					outs = append(outs, "0")
+				}
+			default:
+				g.mu.Lock()
+				g.pending = nil
+				g.mu.Unlock()
+				res.fail = fmt.Sprintf("request %d finished with result %d without gathering", t, code)
+				outs = append(outs, "9")
 			}
+		}
+	}
+	timedOut = func(t int, emitEvent bool) {
+		th := ths[t]
+		evs = append(evs, emit.C(2, emit.I(t)))
+		if !th.running {
+			outs = append(outs, "0")
+			return
+		}
+		code := <-th.done // the TimeoutHandler answers while the gather is still blocked
+		th.timedOut = true
+		if code == rTimeout {
+			outs = append(outs, "3")
+		} else {
+			res.fail = fmt.Sprintf("request %d: wanted the timeout answer, got result %d", t, code)
+			outs = append(outs, "9")
 		}
 	}
 	end := func(t int, p bool) {
 		th := ths[t]
+		if th.running && tmode == 2 && !th.timedOut {
+			timedOut(t, true)
+		}
 		evs = append(evs, emit.C(1, emit.I(t), emit.B(p)))
 		outs = append(outs, "0")
 		if !th.running {
@@ -1081,18 +1223,28 @@ func runSchedule(r *emit.Rng, limit, threads, steps int, withPanics bool) schedR
 		}
 		th.call.fail = p
 		close(th.call.release)
+		if th.timedOut {
+			<-th.call.doneCh // done() of the background gather
+			th.running = false
+			settle() // its deferred semaphore release runs right after done()
+			return
+		}
 		code := <-th.done
 		th.running = false
-		th.finished = true
-		if p != (code == -1) || (!p && code != 200) {
-			res.fail = fmt.Sprintf("thread %d ended with %d (panic wanted: %v)", t, code, p)
+		if (p && code != rPanic) || (!p && code != rOK) {
+			res.fail = fmt.Sprintf("request %d ended with result %d (panic wanted: %v)", t, code, p)
 		}
 	}
-	for s := 0; s < steps; s++ {
+	for s := 0; s < steps && !res.skip; s++ {
 		t := r.Intn(threads)
-		if r.Chance(3, 5) {
+		switch {
+		case r.Chance(3, 5):
 			start(t)
-		} else {
+		case tmode == 2 && r.Chance(1, 2):
+			if !(ths[t].running && ths[t].timedOut) { // a request times out once
+				timedOut(t, true)
+			}
+		default:
 			end(t, withPanics && r.Chance(1, 3))
 		}
 	}
@@ -1103,7 +1255,8 @@ func runSchedule(r *emit.Rng, limit, threads, steps int, withPanics bool) schedR
 	}
 	res.term = emit.C(2, emit.I(limit), emit.L(evs), emit.L(outs), emit.I(int(atomic.LoadInt32(&g.peak))),
 		emit.I(int(atomic.LoadInt32(&g.gathers))), emit.I(int(atomic.LoadInt32(&g.dones))), emit.I(n503))
-	res.tags = []string{fmt.Sprintf("limit:%d", limit), fmt.Sprintf("rejected:%v", n503 > 0), fmt.Sprintf("panics:%v", withPanics)}
+	res.tags = []string{fmt.Sprintf("limit:%d", limit), fmt.Sprintf("rejected:%v", n503 > 0), fmt.Sprintf("panics:%v", withPanics),
+		"timeout:" + []string{"none", "1h-never-fires", "10ms-fires"}[tmode]}
 	return res
 }
 
@@ -1243,7 +1396,19 @@ func runC11(c *cli.Ctx) error {
 	direct = nil
 	for i := 0; i < 150*c.Scale; i++ {
 		limit := []int{1, 1, 2, 3, 4, 0, -1}[r.Intn(7)]
-		res := runSchedule(r, limit, 2+r.Intn(6), 4+r.Intn(24), r.Chance(1, 3))
+		tmode := []int{0, 0, 0, 1, 1, 2}[r.Intn(6)]
+		if i < 6*c.Scale { // the option interaction Timeout x MaxRequestsInFlight, small limits
+			tmode, limit = 2, 1+i%2
+		}
+		nsteps := 4 + r.Intn(24)
+		if tmode == 2 {
+			nsteps = 4 + r.Intn(10)
+		}
+		res := runSchedule(r, limit, 2+r.Intn(6), nsteps, r.Chance(1, 3), tmode)
+		if res.skip {
+			w.Tag("inconclusive-timing", 1)
+			continue
+		}
 		if res.fail != "" {
 			direct = append(direct, map[string]interface{}{"index": w.Len(), "what": res.fail})
 		}
